@@ -1096,6 +1096,59 @@ fn ref_pow<F: Field>(f: &F, k: &BigUint) -> F {
     acc
 }
 
+/// An element of small prime order l of the multiplicative group of `F` (so: outside every
+/// subgroup of large prime order r), or None when no listed prime divides q^k - 1.  It is
+/// h^j with h = t^((q^k-1)/l) for a FIXED t; h is computed once per (field, l) with the reference
+/// exponentiation and cached as bytes (the cache content does not depend on who asks first).
+pub fn small_order_elem<F: Field>(g: &mut G<'_>) -> Option<(F, u64)> {
+    use std::any::TypeId;
+    use std::collections::BTreeMap;
+    use std::sync::Mutex;
+    static CACHE: Mutex<BTreeMap<(TypeId, u64), Option<Vec<u8>>>> = Mutex::new(BTreeMap::new());
+    const PRIMES: [u64; 14] = [2, 3, 5, 7, 11, 13, 17, 19, 23, 29, 31, 37, 41, 43];
+    let l = *g.rng.pick(&PRIMES);
+    let j = 1 + g.rng.below(l as usize - 1) as u64;
+    let key = (TypeId::of::<F>(), l);
+    let cached = CACHE.lock().unwrap().get(&key).cloned();
+    let bytes = match cached {
+        Some(b) => b,
+        None => {
+            let q = modulus::<F::BasePrimeField>();
+            let mut n = BigUint::from(1u32);
+            for _ in 0..F::extension_degree() {
+                n *= &q;
+            }
+            n -= 1u32;
+            let b = if (&n % l).bits() == 0 {
+                let e = &n / l;
+                let mut r = simkit::Rng::new(0x50a11 ^ l);
+                let mut found = None;
+                for _ in 0..8 {
+                    let t = F::rand(&mut r);
+                    if t.is_zero() {
+                        continue;
+                    }
+                    let h = ref_pow(&t, &e);
+                    if h != F::ONE {
+                        found = Some(enc_field(&h, 0, 0));
+                        break;
+                    }
+                }
+                found
+            } else {
+                None
+            };
+            CACHE.lock().unwrap().insert(key, b.clone());
+            b
+        },
+    };
+    let bytes = bytes?;
+    match model_field::<F>(&bytes, 0) {
+        Dec::Ok((h, _, _)) => Some((ref_pow(&h, &BigUint::from(j)), l)),
+        _ => None,
+    }
+}
+
 impl<E: Pairing> Sem for PairingOutput<E> {
     fn gen(g: &mut G<'_>) -> Self {
         if g.simple {
@@ -1104,7 +1157,17 @@ impl<E: Pairing> Sem for PairingOutput<E> {
         match g.rng.below(6) {
             0 => PairingOutput::<E>::zero(),
             1 | 2 if g.invalid_ok => {
-                if g.rng.chance(2, 3) {
+                if g.rng.chance(1, 3) {
+                    // small order, alone or times a genuine output
+                    match small_order_elem::<E::TargetField>(g) {
+                        Some((h, _)) if g.rng.chance(1, 2) => PairingOutput(h),
+                        Some((h, _)) => {
+                            let k = gen_scalar::<E::ScalarField>(g);
+                            PairingOutput(h * (PairingOutput::<E>::generator() * k).0)
+                        },
+                        None => PairingOutput(gen_field::<E::TargetField>(g)),
+                    }
+                } else if g.rng.chance(2, 3) {
                     // a fixed non-member or its inverse (see the note on cancelling elements above)
                     let k = 0u64;
                     let mut r = simkit::Rng::new(0x1badc0de + k);
@@ -1146,6 +1209,11 @@ impl<E: Pairing> Wire for PairingOutput<E> {
         }
     }
     fn foreign(g: &mut G<'_>, _c: Compress) -> Option<(Vec<u8>, &'static str)> {
+        if g.rng.chance(2, 5) {
+            if let Some((h, _)) = small_order_elem::<E::TargetField>(g) {
+                return Some((enc_field(&h, 0, 0), "target-field element of small prime order"));
+            }
+        }
         if g.rng.chance(1, 2) {
             let f: E::TargetField = gen_field(g);
             Some((enc_field(&f, 0, 0), "random target-field element"))
